@@ -316,7 +316,7 @@ def accessor_terms(F, impl_short, which, hooks):
     if short not in F.short:
         return set()
     out = set()
-    for p in explore(F, F.short[short], default_args(F, F.short[short]), {"loop_bound": 1, "hooks": hooks}, max_paths=200):
+    for p in explore(F, F.short[short], default_args(F, F.short[short]), {"loop_bound": 1, "hooks": hooks, "opaque_branch_ok": True}, max_paths=200):
         if p.result[0] == "ret":
             out.add(Order.strip(repr(p.result[1]).replace("?", "")))
     return out
@@ -352,7 +352,7 @@ def check_lcp(ctx, rep, cfg, F):
             ren = dict(zip(pn, ["self", "other"]))
             lens = {k: {t.replace("*" + k, "*" + [a for a, c in ren.items() if c == k][0]) for t in v} for k, v in lens.items()} if len(pn) == 2 else lens
             reprs = {k: {t.replace("*" + k, "*" + [a for a, c in ren.items() if c == k][0]) for t in v} for k, v in reprs.items()} if len(pn) == 2 else reprs
-        paths = explore(F, path, default_args(F, path), {"loop_bound": 1, "hooks": hooks}, max_paths=2000)
+        paths = explore(F, path, default_args(F, path), {"loop_bound": 1, "hooks": hooks, "opaque_branch_ok": True}, max_paths=2000)
         C.report_unrecognised(rep, "R17.4", short, paths, F)
         for p in paths:
             if p.result[0] != "ret":
@@ -420,7 +420,7 @@ def check_from_repr_len(ctx, rep, cfg, F):
         if len(pn) != 2 or ptys[1] != "u8":
             rep.bad("R17.5", s_, "shape", "%s: parameters %s %s not recognised" % (s_, pn, ptys), kind="unrecognised", config=cfg)
             continue
-        paths = explore(F, path, default_args(F, path), {"loop_bound": 1, "hooks": hooks}, max_paths=500)
+        paths = explore(F, path, default_args(F, path), {"loop_bound": 1, "hooks": hooks, "opaque_branch_ok": True}, max_paths=500)
         C.report_unrecognised(rep, "R17.5", s_, paths, F)
         for p in paths:
             if p.result[0] != "ret":
